@@ -391,9 +391,11 @@ def curated_runs():
     # samples with different resolutions, the lowest one last, histogram sheet on
     out.append(dict(arm='run', instruments=[i1], beads=[b1],
                     files={'beads1.fcs': dict(kind='beads', instrument='I1', seed=3), 'c1.fcs': cells(4, 1024), 'c2.fcs': cells(5, 4096),
-                           'c3.fcs': cells(6, 256), 'c4.fcs': cells(7, 1024, 'F'), 'c5.fcs': dict(cells(10, 1024, 'F'), tiny_neg=True)},
+                           'c3.fcs': cells(6, 256), 'c4.fcs': cells(7, 1024, 'F'), 'c5.fcs': dict(cells(10, 1024, 'F'), tiny_neg=True),
+                           'c6.fcs': dict(cells(11), no_volt=True)},
                     samples=[srow(1, 'c1.fcs', {'FL1-H': 'MEF', 'FL2-H': 'Channel'}), srow(2, 'c2.fcs', {'FL1-H': 'RFI'}),
                              srow(3, 'c4.fcs', {'FL2-H': 'a.u.'}, beads=None), srow(5, 'c5.fcs', {'FL1-H': 'RFI'}, beads=None),
+                             srow(6, 'c6.fcs', {'FL1-H': 'MEF'}),          # calibrated; the file records no detector voltages
                              srow(4, 'c3.fcs', {'FL1-H': 'Channel', 'FL3-H': 'rfi'})],         # (the lowest resolution stays last)
                     np_seed=3, plot=False, hist=True, default_out=True, header_ws=True))
     # every row faulty except one; two clustering channels; plots on
